@@ -15,7 +15,8 @@ META = {
     "a dot-dot component or NUL and closed under substrings. Each handler class of the shipped and the full list is then executed symbolically on "
     "bounded selectors over an in-memory VFS that logs every access: a handler accepts only filtered selectors, and every non-stat access and every "
     "path handed to zipfile/mailbox/import/subprocess is an absolute path lexically inside the root. The URL protocols hand exactly one "
-    "percent-decoding of the path, slash-normalised, to handler selection.",
+    "percent-decoding of the path, slash-normalised, to handler selection."
+    " VFS_Real.getfspath is root + selector literally, also for selectors over separator/dot look-alike characters (no normalisation between the filter and the OS path).",
     "trusted": "z3 regex solver and the pyre translator (validated per run); CrossHair/z3; MemVFS and the recorders stand for the OS and for zipfile/mailbox/importlib/subprocess.",
     "explanation": "Regular-language equivalence (unbounded) + bounded symbolic execution with an access log as the oracle.",
     "assumptions": [
